@@ -281,6 +281,7 @@ func solicitLockset(c *an.Check) {
 }
 
 func c31(c *an.Check) {
+	solicitedHandlerHandsOver(c)
 	p := c.P
 	acc := p.Func(solPkg, "solicitMountedStream", "AcceptMountedStream")
 	cl := p.Func(solPkg, "solicitMountedStream", "Close")
@@ -657,4 +658,52 @@ func mountedLinkForwarding(c *an.Check) {
 		}
 	}
 	c.Require(bad == "" && n == len(want), "PROVENANCE", "mounted link accessors forward to the link accessor of the same meaning", nil, "", n, "GetX() = link.GetX()", bad)
+}
+
+
+// solicitedHandlerHandsOver: the mounted-stream handler for incoming solicit:<hash> streams only hands the stream to
+// the controller and reports success — it returns no error after the hand-over (the transport controller closes a stream
+// whose handler returned an error, i.e. a stream a caller may already have accepted) and closes no stream itself: the
+// only code that closes a solicited stream is the ownership wrapper's Close.
+func solicitedHandlerHandsOver(c *an.Check) {
+	p := c.P
+	h := p.Func(solcPkg, "solicitedStreamMountedHandler", "HandleMountedStream")
+	if h == nil {
+		c.Undecided("ORDER", "solicited-stream handler", nil, "unresolved anchor")
+		return
+	}
+	cHand := an.R(solcPkg, "Controller", "handleIncomingSolicitedStream")
+	c.EachReturn("ORDER", "solicited-stream handler reports success once the stream was handed over", h, "no error return after handleIncomingSolicitedStream", func(s *an.State, ret *ssa.Return) string {
+		handed := s.Executed(ret, func(i ssa.Instruction) bool { return an.IsCallTo(i, cHand) })
+		if handed && !s.IsNil(s.RetVal(ret, 0)) {
+			return "the handler returns an error after it handed the stream to the controller: the transport closes a stream that a caller may already own"
+		}
+		return ""
+	})
+	closes := ""
+	for _, g := range an.WithClosures(h) {
+		for _, b := range g.Blocks {
+			for _, ins := range b.Instrs {
+				var cc *ssa.CallCommon
+				switch x := ins.(type) {
+				case *ssa.Call:
+					cc = x.Common()
+				case *ssa.Defer:
+					cc = x.Common()
+				case *ssa.Go:
+					cc = x.Common()
+				}
+				if cc != nil && cc.IsInvoke() && cc.Method.Name() == "Close" {
+					closes = fmt.Sprintf("the solicited-stream handler closes a stream itself at %s: it cannot know whether that stream was accepted", p.Pos(ins.Pos()))
+				}
+			}
+		}
+	}
+	n := len(an.Calls(h, cHand))
+	c.Require(closes == "" && n == 1, "WHO", "solicited streams are closed only through their ownership wrapper", h, "", n, "handler hands over exactly once and never calls Close", func() string {
+		if closes != "" {
+			return closes
+		}
+		return "the handler does not hand the stream to the controller exactly once (anchor drift)"
+	}())
 }
